@@ -673,7 +673,8 @@ Section Resize.
     pose proof columns_dom as [C _]. pose proof lines_dom as [L _].
     destruct ((columns <=? w) && (lines <=? h)) eqn:E; intros H; injection H as H1 H2; rewrite <- H1, <- H2; clear H1 H2.
     - rewrite !Z.eqb_refl. reflexivity.
-    - destruct (f_leb sfX sfY) eqn:B.
+    - assert (BB : f_leb sfX sfY = true \/ f_leb sfX sfY = false) by (destruct (f_leb sfX sfY); auto).
+      destruct BB as [B | B].
       + pose proof (branch_X B) as BX. apply Z.leb_le in BX. rewrite BX.
         rewrite !within_X by assumption. reflexivity.
       + pose proof (branch_Y B) as BY.
@@ -695,9 +696,499 @@ Proof. intros; apply fits_box_s; assumption. Qed.
 Theorem never_upscales wPix hPix w h cw ch nw nh :
   dom wPix -> dom hPix -> dom w -> dom h -> dom cw -> dom ch ->
   resize_dims wPix hPix w h cw ch = RDims nw nh -> nw <= wPix /\ nh <= hPix.
-Proof. intros; eapply never_upscales_s; eassumption. Qed.
+Proof. intros; eapply (never_upscales_s wPix hPix w h cw ch); eassumption. Qed.
 
 Theorem aspect_within_one wPix hPix w h cw ch nw nh :
   dom wPix -> dom hPix -> dom w -> dom h -> dom cw -> dom ch ->
   resize_dims wPix hPix w h cw ch = RDims nw nh -> aspect_ok wPix hPix w h cw ch nw nh = true.
-Proof. intros; eapply aspect_s; eassumption. Qed.
+Proof. intros; eapply (aspect_s wPix hPix w h cw ch); eassumption. Qed.
+
+Theorem resize_ok_model wPix hPix w h cw ch nw nh :
+  dom wPix -> dom hPix -> dom w -> dom h -> dom cw -> dom ch ->
+  resize_dims wPix hPix w h cw ch = RDims nw nh -> resize_ok wPix hPix w h cw ch nw nh = true.
+Proof.
+  intros D1 D2 D3 D4 D5 D6 H.
+  destruct (fits_box wPix hPix w h cw ch D1 D2 D3 D4 D5 D6) as [nw' [nh' [E [P1 [P2 [F1 F2]]]]]].
+  rewrite H in E. injection E as <- <-.
+  destruct (never_upscales wPix hPix w h cw ch nw nh D1 D2 D3 D4 D5 D6 H) as [N1 N2].
+  unfold resize_ok, fits_ok, no_upscale_ok.
+  rewrite (aspect_within_one wPix hPix w h cw ch nw nh D1 D2 D3 D4 D5 D6 H).
+  repeat (apply andb_true_intro; split); try apply Z.leb_le; try assumption; reflexivity.
+Qed.
+
+(* the aspect ratio itself: cross-multiplied, exact up to one pixel of one side *)
+Theorem aspect_cross wPix hPix w h cw ch nw nh :
+  dom wPix -> dom hPix -> dom w -> dom h -> dom cw -> dom ch ->
+  resize_dims wPix hPix w h cw ch = RDims nw nh ->
+  - hPix <= nw * hPix - nh * wPix <= wPix.
+Proof.
+  intros D1 D2 D3 D4 D5 D6 H.
+  pose proof (aspect_within_one wPix hPix w h cw ch nw nh D1 D2 D3 D4 D5 D6 H) as A.
+  unfold aspect_ok in A.
+  assert (G : forall a c, 0 < c -> scaled_within_one a c wPix nw && scaled_within_one a c hPix nh = true ->
+                          - hPix <= nw * hPix - nh * wPix <= wPix).
+  { intros a c Hc S. apply andb_prop in S. destruct S as [S1 S2]. unfold scaled_within_one in *.
+    apply andb_prop in S1, S2. destruct S1 as [A1 A2]. destruct S2 as [B1 B2].
+    apply Z.leb_le in A1, A2, B1, B2. unfold dom in D1, D2.
+    split.
+    - (* nh c wPix <= a hPix wPix <= (nw+1) c hPix *)
+      assert (nh * wPix <= (nw + 1) * hPix); [|lia].
+      apply Z.mul_le_mono_pos_r with (p := c); [exact Hc|].
+      apply Z.le_trans with (a * hPix * wPix).
+      + replace (nh * wPix * c) with (nh * c * wPix) by ring. apply Z.mul_le_mono_nonneg_r; lia.
+      + replace (a * hPix * wPix) with (a * wPix * hPix) by ring.
+        replace ((nw + 1) * hPix * c) with ((nw + 1) * c * hPix) by ring. apply Z.mul_le_mono_nonneg_r; lia.
+    - assert (nw * hPix <= (nh + 1) * wPix); [|lia].
+      apply Z.mul_le_mono_pos_r with (p := c); [exact Hc|].
+      apply Z.le_trans with (a * wPix * hPix).
+      + replace (nw * hPix * c) with (nw * c * hPix) by ring. apply Z.mul_le_mono_nonneg_r; lia.
+      + replace (a * wPix * hPix) with (a * hPix * wPix) by ring.
+        replace ((nh + 1) * wPix * c) with ((nh + 1) * c * wPix) by ring. apply Z.mul_le_mono_nonneg_r; lia. }
+  assert (C : 0 < ceil_div wPix cw) by (unfold dom in *; apply ceil_div_pos; lia).
+  assert (L : 0 < ceil_div hPix ch) by (unfold dom in *; apply ceil_div_pos; lia).
+  destruct ((ceil_div wPix cw <=? w) && (ceil_div hPix ch <=? h)).
+  - apply andb_prop in A. destruct A as [A1 A2]. apply Z.eqb_eq in A1, A2. subst. unfold dom in *. lia.
+  - destruct (w * ceil_div hPix ch <=? h * ceil_div wPix cw);
+      [apply (G w (ceil_div wPix cw) C A) | apply (G h (ceil_div hPix ch) L A)].
+Qed.
+
+(* cell sizes of the four image kinds *)
+Lemma block_cells_pix nw nh : 0 <= nh -> block_cells nw nh = pix_cells nw nh 1 2.
+Proof.
+  intros H. unfold block_cells, pix_cells, ceil_div. f_equal.
+  - rewrite Z.div_1_r, Z.mod_1_r. cbn. lia.
+  - pose proof (Z.div_mod nh 2 ltac:(lia)) as D. pose proof (Z.mod_pos_bound nh 2 ltac:(lia)) as M.
+    destruct (nh mod 2 =? 0) eqn:E.
+    + lia.
+    + assert (nh mod 2 = 1) by lia.
+      replace (nh + 1) with (nh / 2 * 2 + 2) by lia.
+      replace (nh / 2 * 2 + 2) with ((nh / 2 + 1) * 2) by ring. rewrite Z.div_mul by lia. reflexivity.
+Qed.
+
+Lemma dom_1 : dom 1. Proof. unfold dom. cbn. lia. Qed.
+Lemma dom_2 : dom 2. Proof. unfold dom. cbn. lia. Qed.
+
+Theorem kitty_cells_fit wPix hPix w h cw ch :
+  dom wPix -> dom hPix -> dom w -> dom h -> dom cw -> dom ch ->
+  exists cw' ch', kitty_cell_size wPix hPix w h cw ch = Some (cw', ch') /\
+                  0 <= cw' <= w /\ 0 <= ch' <= h /\
+                  cw' <= ceil_div wPix cw /\ ch' <= ceil_div hPix ch.
+Proof.
+  intros D1 D2 D3 D4 D5 D6.
+  destruct (fits_box wPix hPix w h cw ch D1 D2 D3 D4 D5 D6) as [nw [nh [E [P1 [P2 [F1 F2]]]]]].
+  destruct (never_upscales wPix hPix w h cw ch nw nh D1 D2 D3 D4 D5 D6 E) as [N1 N2].
+  unfold kitty_cell_size. rewrite E. unfold pix_cells.
+  eexists; eexists; split; [reflexivity|]. unfold dom in *.
+  pose proof (ceil_div_spec nw cw P1 ltac:(lia)) as [_ Q1]. pose proof (ceil_div_spec nh ch P2 ltac:(lia)) as [_ Q2].
+  repeat split; try assumption; apply ceil_div_mono; lia.
+Qed.
+
+Theorem block_cells_fit wPix hPix w h :
+  dom wPix -> dom hPix -> dom w -> dom h ->
+  exists cw' ch', block_cell_size wPix hPix w h = Some (cw', ch') /\
+                  0 <= cw' <= w /\ 0 <= ch' <= h /\
+                  cw' <= wPix /\ ch' <= (hPix + 1) / 2.
+Proof.
+  intros D1 D2 D3 D4.
+  destruct (fits_box wPix hPix w h 1 2 D1 D2 D3 D4 dom_1 dom_2) as [nw [nh [E [P1 [P2 [F1 F2]]]]]].
+  destruct (never_upscales wPix hPix w h 1 2 nw nh D1 D2 D3 D4 dom_1 dom_2 E) as [N1 N2].
+  unfold block_cell_size. rewrite E. rewrite block_cells_pix by assumption. unfold pix_cells.
+  eexists; eexists; split; [reflexivity|].
+  pose proof (ceil_div_spec nw 1 P1 ltac:(lia)) as [Q1 Q1']. pose proof (ceil_div_spec nh 2 P2 ltac:(lia)) as [Q2 Q2'].
+  repeat split; try assumption; try lia.
+  apply Z.div_le_lower_bound; lia.
+Qed.
+
+(* ================================================================== placements *)
+
+Lemma same_placement_eq a b : same_placement a b = true <-> a = b.
+Proof.
+  destruct a as [i c r w h], b as [i' c' r' w' h']. unfold same_placement; cbn [p_id p_col p_row p_w p_h].
+  split.
+  - destruct (i =? i') eqn:E1; cbn [negb]; [|discriminate].
+    destruct (c =? c') eqn:E2; cbn [negb]; [|discriminate].
+    destruct (r =? r') eqn:E3; cbn [negb]; [|discriminate].
+    destruct (w =? w') eqn:E4; cbn [negb]; [|discriminate].
+    destruct (h =? h') eqn:E5; cbn [negb]; [|discriminate].
+    intros _. apply Z.eqb_eq in E1, E2, E3, E4, E5. congruence.
+  - intros E. injection E as -> -> -> -> ->. rewrite !Z.eqb_refl. reflexivity.
+Qed.
+
+Lemma has_same_mem p l : has_same p l = mem_p p l.
+Proof.
+  induction l as [|q t IH]; [reflexivity|]. cbn [has_same mem_p existsb].
+  destruct (same_placement p q); [reflexivity | exact IH].
+Qed.
+
+Lemma mem_p_In p l : mem_p p l = true <-> In p l.
+Proof.
+  unfold mem_p. rewrite existsb_exists. split.
+  - intros [q [Hq E]]. apply same_placement_eq in E. subst. exact Hq.
+  - intros H. exists p. split; [exact H | apply same_placement_eq; reflexivity].
+Qed.
+
+(* what one render() is specified to emit: deletions first, then writes *)
+Definition frame_events (refresh : bool) (prev cur : list placement) : list gevent :=
+  map GDelete (filter (fun p => refresh || negb (mem_p p cur)) prev) ++
+  map GWrite (filter (fun p => refresh || negb (mem_p p prev)) cur).
+
+Lemma delete_loop_spec refresh gnext glast :
+  delete_loop refresh gnext glast = map GDelete (filter (fun p => refresh || negb (mem_p p gnext)) glast).
+Proof.
+  induction glast as [|p t IH]; [reflexivity|]. cbn [delete_loop filter].
+  rewrite has_same_mem. destruct refresh; cbn [orb].
+  - cbn [map]. f_equal. exact IH.
+  - destruct (mem_p p gnext); cbn [negb map]; [exact IH | f_equal; exact IH].
+Qed.
+
+Lemma write_loop_spec glast gnext :
+  write_loop glast gnext = map GWrite (filter (fun p => negb (mem_p p glast)) gnext).
+Proof.
+  induction gnext as [|p t IH]; [reflexivity|]. cbn [write_loop filter].
+  rewrite has_same_mem. destruct (mem_p p glast); cbn [negb map]; [exact IH | f_equal; exact IH].
+Qed.
+
+Lemma render_graphics_spec refresh glast gnext :
+  render_graphics refresh glast gnext = (frame_events refresh glast gnext, gnext).
+Proof.
+  unfold render_graphics, frame_events. rewrite delete_loop_spec, write_loop_spec.
+  destruct refresh; reflexivity.
+Qed.
+
+(* the frames of a history: (refresh?, graphicsNext at that render) *)
+Fixpoint frames_of (gnext : list placement) (ops : list gop) : list (bool * list placement) :=
+  match ops with
+  | [] => []
+  | OClear :: t => frames_of [] t
+  | ODraw p :: t => frames_of (gnext ++ [p]) t
+  | ORender :: t => (false, gnext) :: frames_of gnext t
+  | ORefresh :: t => (true, gnext) :: frames_of gnext t
+  end.
+
+Fixpoint spec_events (prev : list placement) (frames : list (bool * list placement)) : list (list gevent) :=
+  match frames with
+  | [] => []
+  | (r, cur) :: t => frame_events r prev cur :: spec_events cur t
+  end.
+
+Lemma run_ops_spec s ops :
+  run_ops s ops = spec_events (g_last s) (frames_of (g_next s) ops).
+Proof.
+  revert s. induction ops as [|o t IH]; intros s; [reflexivity|].
+  destruct o; cbn [run_ops frames_of spec_events].
+  - rewrite IH. reflexivity.
+  - rewrite IH. reflexivity.
+  - rewrite render_graphics_spec. rewrite IH. reflexivity.
+  - rewrite render_graphics_spec. rewrite IH. reflexivity.
+Qed.
+
+(* graphicsNext of the previous frame (nothing before the first) *)
+Definition prev_frame (frames : list (bool * list placement)) (i : nat) : list placement :=
+  match i with
+  | O => []
+  | S j => match nth_error frames j with Some (_, c) => c | None => [] end
+  end.
+
+Lemma spec_events_nth prev frames i r cur :
+  nth_error frames i = Some (r, cur) ->
+  nth_error (spec_events prev frames) i =
+  Some (frame_events r (match i with O => prev | S _ => prev_frame frames i end) cur).
+Proof.
+  revert prev i. induction frames as [|[r0 c0] t IH]; intros prev i H.
+  - destruct i; discriminate.
+  - destruct i as [|j]; cbn [nth_error spec_events] in *.
+    + injection H as -> ->. reflexivity.
+    + rewrite (IH c0 j H). f_equal. f_equal.
+      destruct j as [|k]; cbn [prev_frame nth_error]; reflexivity.
+Qed.
+
+Lemma frame_events_write r prev cur p :
+  In (GWrite p) (frame_events r prev cur) <-> In p cur /\ (r = true \/ ~ In p prev).
+Proof.
+  unfold frame_events. rewrite in_app_iff, !in_map_iff. split.
+  - intros [[q [E _]] | [q [E F]]]; [discriminate|]. injection E as ->.
+    apply filter_In in F. destruct F as [F1 F2]. split; [exact F1|].
+    destruct r; [left; reflexivity|right]. cbn [orb] in F2.
+    intros I. apply mem_p_In in I. rewrite I in F2. discriminate.
+  - intros [I C]. right. exists p. split; [reflexivity|]. apply filter_In. split; [exact I|].
+    destruct C as [-> | N]; [reflexivity|]. destruct r; [reflexivity|]. cbn [orb].
+    destruct (mem_p p prev) eqn:M; [|reflexivity]. apply mem_p_In in M. contradiction.
+Qed.
+
+Lemma frame_events_delete r prev cur p :
+  In (GDelete p) (frame_events r prev cur) <-> In p prev /\ (r = true \/ ~ In p cur).
+Proof.
+  unfold frame_events. rewrite in_app_iff, !in_map_iff. split.
+  - intros [[q [E F]] | [q [E _]]]; [|discriminate]. injection E as ->.
+    apply filter_In in F. destruct F as [F1 F2]. split; [exact F1|].
+    destruct r; [left; reflexivity|right]. cbn [orb] in F2.
+    intros I. apply mem_p_In in I. rewrite I in F2. discriminate.
+  - intros [I C]. left. exists p. split; [reflexivity|]. apply filter_In. split; [exact I|].
+    destruct C as [-> | N]; [reflexivity|]. destruct r; [reflexivity|]. cbn [orb].
+    destruct (mem_p p cur) eqn:M; [|reflexivity]. apply mem_p_In in M. contradiction.
+Qed.
+
+(* the protocol over all histories *)
+Theorem placement_protocol ops i r cur :
+  nth_error (frames_of [] ops) i = Some (r, cur) ->
+  exists evs, nth_error (run_ops g_init ops) i = Some evs /\
+    evs = frame_events r (prev_frame (frames_of [] ops) i) cur /\
+    (forall p, In (GWrite p) evs <-> In p cur /\ (r = true \/ ~ In p (prev_frame (frames_of [] ops) i))) /\
+    (forall p, In (GDelete p) evs <-> In p (prev_frame (frames_of [] ops) i) /\ (r = true \/ ~ In p cur)).
+Proof.
+  intros H. rewrite run_ops_spec. cbn [g_init g_last g_next].
+  rewrite (spec_events_nth [] _ i r cur H).
+  assert (E : match i with O => [] | S _ => prev_frame (frames_of [] ops) i end = prev_frame (frames_of [] ops) i)
+    by (destruct i; reflexivity).
+  rewrite E. eexists; split; [reflexivity|]. split; [reflexivity|].
+  split; intros p; [apply frame_events_write | apply frame_events_delete].
+Qed.
+
+Lemma run_ops_length ops : length (run_ops g_init ops) = length (frames_of [] ops).
+Proof.
+  rewrite run_ops_spec. cbn [g_init g_last g_next].
+  generalize (@nil placement) at 1. induction (frames_of [] ops) as [|[r c] t IH]; intros prev; [reflexivity|].
+  cbn [spec_events length]. f_equal. apply IH.
+Qed.
+
+(* the violation predicate of the placement stream accepts what the model does *)
+Lemma list_eqb_refl {A} (eqb : A -> A -> bool) (l : list A) :
+  (forall x, eqb x x = true) -> list_eqb eqb l l = true.
+Proof. intros R. induction l as [|x t IH]; [reflexivity|]. cbn [list_eqb]. rewrite R, IH. reflexivity. Qed.
+
+Lemma gevent_eqb_refl e : gevent_eqb e e = true.
+Proof. destruct e; cbn [gevent_eqb]; apply same_placement_eq; reflexivity. Qed.
+
+Theorem frames_ok_model prev frames :
+  frames_ok prev (map (fun '(rc, ev) => (fst rc, snd rc, ev))
+                      (combine frames (spec_events prev frames))) = true.
+Proof.
+  revert prev. induction frames as [|[r c] t IH]; intros prev; [reflexivity|].
+  cbn [spec_events combine map frames_ok fst snd].
+  rewrite IH, andb_true_r. unfold frame_ok. apply list_eqb_refl. exact gevent_eqb_refl.
+Qed.
+
+(* ================================================================== block images *)
+
+Lemma In_zseq n k : In k (zseq n) <-> 0 <= k < n.
+Proof.
+  unfold zseq. rewrite in_map_iff. split.
+  - intros [j [E I]]. apply in_seq in I. lia.
+  - intros H. exists (Z.to_nat k). split; [lia|]. apply in_seq. lia.
+Qed.
+
+Lemma zlen_zseq n : 0 <= n -> zlen (zseq n) = n.
+Proof. intros H. unfold zlen, zseq. rewrite map_length, seq_length. lia. Qed.
+
+Lemma zget_map_zseq {A} (f : Z -> A) n i : 0 <= i < n -> zget (map f (zseq n)) i = Some (f i).
+Proof.
+  intros H. unfold zget. destruct (i <? 0) eqn:E; [lia|].
+  unfold zseq. rewrite map_map.
+  rewrite nth_error_map.
+  assert (S : nth_error (seq 0 (Z.to_nat n)) (Z.to_nat i) = Some (Z.to_nat i)).
+  { rewrite nth_error_nth' with (d := O) by (rewrite seq_length; lia).
+    rewrite seq_nth by lia. reflexivity. }
+  rewrite S. cbn [option_map]. f_equal. f_equal. lia.
+Qed.
+
+Lemma cell_index w x y : 0 <= x < w -> (y * w + x) / w = y /\ (y * w + x) - (y * w + x) / w * w = x.
+Proof.
+  intros H. assert (E : (y * w + x) / w = y).
+  { rewrite Z.div_add_l by lia. rewrite Z.div_small by lia. lia. }
+  rewrite E. lia.
+Qed.
+
+Lemma block_height nw nh : 0 <= nh -> snd (block_cells nw nh) = (nh + 1) / 2.
+Proof.
+  intros H. unfold block_cells; cbn [snd].
+  pose proof (Z.div_mod nh 2 ltac:(lia)) as D. pose proof (Z.mod_pos_bound nh 2 ltac:(lia)) as M.
+  destruct (nh mod 2 =? 0) eqn:E; [|reflexivity].
+  apply Z.eqb_eq in E.
+  rewrite (Z.div_unique (nh + 1) 2 (nh / 2) 1) by lia. reflexivity.
+Qed.
+
+(* every cell of the encoding is computed from the two pixels it covers *)
+Lemma block_encode_get cell im x y :
+  0 <= iw im -> 0 <= ih im ->
+  0 <= x < iw im -> 0 <= y < (ih im + 1) / 2 ->
+  zget (block_encode cell im) (y * iw im + x) = Some (cell (img_at im x (2 * y)) (img_at im x (2 * y + 1))).
+Proof.
+  intros Hw Hh Hx Hy. unfold block_encode.
+  pose proof (block_height (iw im) (ih im) Hh) as BH.
+  rewrite BH. cbn [block_cells fst].
+  rewrite zget_map_zseq by nia.
+  destruct (cell_index (iw im) x y Hx) as [E1 E2]. cbv beta zeta. rewrite E2, E1.
+  replace (y * 2) with (2 * y) by ring. reflexivity.
+Qed.
+
+Lemma block_encode_len cell im :
+  0 <= iw im -> 0 <= ih im -> zlen (block_encode cell im) = iw im * ((ih im + 1) / 2).
+Proof.
+  intros Hw Hh. unfold block_encode, zlen. rewrite map_length. fold (zlen (zseq (snd (block_cells (iw im) (ih im)) * fst (block_cells (iw im) (ih im))))).
+  pose proof (block_height (iw im) (ih im) Hh) as BH.
+  rewrite BH. cbn [block_cells fst].
+  assert (0 <= (ih im + 1) / 2) by (apply Z.div_pos; lia).
+  rewrite zlen_zseq by nia. ring.
+Qed.
+
+(* half block: what the two halves of the cell show *)
+Lemma hb_cell_shows t b :
+  glyph_ok (hb_cell t b) = true /\
+  shown_top (hb_cell t b) = px_colour t /\ shown_bottom (hb_cell t b) = px_colour b.
+Proof.
+  unfold hb_cell, px_colour.
+  destruct (to_rgb t) as [[[tr tg] tb] ta]. destruct (to_rgb b) as [[[br bg] bb] ba].
+  destruct (ta <? transparent_enough); destruct (ba <? transparent_enough); cbn; auto.
+Qed.
+
+Lemma fb_cell_shows t b : fb_cell t b = (g_space, 0, avg_colour t b).
+Proof.
+  unfold fb_cell, avg_colour. destruct (average2 t b) as [[[r g] bl] a].
+  change transparent_enough with 50. destruct (a <? 50); reflexivity.
+Qed.
+
+Theorem half_block_pixels im x y :
+  0 <= iw im -> 0 <= ih im -> 0 <= x < iw im -> 0 <= y < (ih im + 1) / 2 ->
+  exists c, zget (block_encode hb_cell im) (y * iw im + x) = Some c /\ glyph_ok c = true /\
+            shown_top c = px_colour (img_at im x (2 * y)) /\
+            shown_bottom c = px_colour (img_at im x (2 * y + 1)).
+Proof.
+  intros Hw Hh Hx Hy. eexists. split; [apply block_encode_get; assumption|]. apply hb_cell_shows.
+Qed.
+
+Theorem full_block_pixels im x y :
+  0 <= iw im -> 0 <= ih im -> 0 <= x < iw im -> 0 <= y < (ih im + 1) / 2 ->
+  zget (block_encode fb_cell im) (y * iw im + x) =
+  Some (g_space, 0, avg_colour (img_at im x (2 * y)) (img_at im x (2 * y + 1))).
+Proof. intros Hw Hh Hx Hy. rewrite block_encode_get by assumption. rewrite fb_cell_shows. reflexivity. Qed.
+
+(* the predicates of the pixel stream accept the encoders' output *)
+Lemma forallb_zseq n f : (forall k, 0 <= k < n -> f k = true) -> forallb f (zseq n) = true.
+Proof. intros H. apply forallb_forall. intros k I. apply In_zseq in I. auto. Qed.
+
+Theorem half_cells_ok_model im :
+  0 <= iw im -> 0 <= ih im ->
+  half_cells_ok im (iw im) ((ih im + 1) / 2) (block_encode hb_cell im) = true.
+Proof.
+  intros Hw Hh. unfold half_cells_ok. rewrite !Z.eqb_refl. rewrite block_encode_len by assumption. rewrite Z.eqb_refl.
+  cbn [andb]. apply forallb_zseq. intros y Hy. apply forallb_zseq. intros x Hx.
+  destruct (half_block_pixels im x y Hw Hh Hx Hy) as [c [G [K [T B]]]]. rewrite G, K, T, B, !Z.eqb_refl. reflexivity.
+Qed.
+
+Theorem full_cells_ok_model im :
+  0 <= iw im -> 0 <= ih im ->
+  full_cells_ok im (iw im) ((ih im + 1) / 2) (block_encode fb_cell im) = true.
+Proof.
+  intros Hw Hh. unfold full_cells_ok. rewrite !Z.eqb_refl. rewrite block_encode_len by assumption. rewrite Z.eqb_refl.
+  cbn [andb]. apply forallb_zseq. intros y Hy. apply forallb_zseq. intros x Hx.
+  rewrite full_block_pixels by assumption. rewrite !Z.eqb_refl. reflexivity.
+Qed.
+
+(* ---------------- colours: opaque 8-bit pixels are reproduced exactly, transparent ones vanish *)
+
+Lemma to_rgb_opaque r g b :
+  0 <= r <= 255 -> 0 <= g <= 255 -> 0 <= b <= 255 ->
+  to_rgb (r * 257, g * 257, b * 257, 65535) = (r, g, b, 255).
+Proof.
+  intros Hr Hg Hb. unfold to_rgb. cbn [Z.eqb]. unfold u8, u32.
+  assert (C : forall v, 0 <= v <= 255 -> ((v * 257 * 255) mod 4294967296 / 65535) mod 256 = v).
+  { intros v Hv. rewrite (Z.mod_small (v * 257 * 255)) by lia.
+    replace (v * 257 * 255) with (v * 65535) by ring. rewrite Z.div_mul by lia. apply Z.mod_small. lia. }
+  rewrite !C by assumption. reflexivity.
+Qed.
+
+Theorem opaque_pixel_colour r g b :
+  0 <= r <= 255 -> 0 <= g <= 255 -> 0 <= b <= 255 ->
+  px_colour (r * 257, g * 257, b * 257, 65535) = rgb_color r g b.
+Proof. intros Hr Hg Hb. unfold px_colour. rewrite to_rgb_opaque by assumption. reflexivity. Qed.
+
+Theorem alpha_threshold pr pg pb pa :
+  0 <= pa <= 65535 ->
+  (pa < 50 * 256 -> px_colour (pr, pg, pb, pa) = 0) /\
+  (50 * 256 <= pa -> tag_rgb <= px_colour (pr, pg, pb, pa)).
+Proof.
+  intros Ha. unfold px_colour, to_rgb.
+  destruct (pa =? 0) eqn:E0.
+  - apply Z.eqb_eq in E0. subst. split; [reflexivity | lia].
+  - apply Z.eqb_neq in E0. unfold transparent_enough.
+    assert (A : u8 (pa / 256) = pa / 256).
+    { unfold u8. apply Z.mod_small. split; [apply Z.div_pos; lia | apply Z.div_lt_upper_bound; lia]. }
+    rewrite A. split; intros H.
+    + assert (L : pa / 256 < 50) by (apply Z.div_lt_upper_bound; lia).
+      apply Z.ltb_lt in L. rewrite L. reflexivity.
+    + assert (L : 50 <= pa / 256) by (apply Z.div_le_lower_bound; lia).
+      apply Z.ltb_ge in L. rewrite L. unfold rgb_color, u8.
+      pose proof (Z.mod_pos_bound (u32 (pr * 255) / pa) 256 ltac:(lia)).
+      pose proof (Z.mod_pos_bound (u32 (pg * 255) / pa) 256 ltac:(lia)).
+      pose proof (Z.mod_pos_bound (u32 (pb * 255) / pa) 256 ltac:(lia)). lia.
+Qed.
+
+Theorem full_block_uniform r g b :
+  0 <= r <= 255 -> 0 <= g <= 255 -> 0 <= b <= 255 ->
+  let p := (r * 257, g * 257, b * 257, 65535) in
+  fb_cell p p = (g_space, 0, rgb_color r g b).
+Proof.
+  intros Hr Hg Hb p. rewrite fb_cell_shows. unfold avg_colour, average2, p.
+  rewrite to_rgb_opaque by assumption. unfold u8.
+  assert (C : forall v, 0 <= v <= 255 -> ((v + v) / 2) mod 256 = v).
+  { intros v Hv. replace (v + v) with (v * 2) by ring. rewrite Z.div_mul by lia. apply Z.mod_small; lia. }
+  rewrite !C by (assumption || lia). reflexivity.
+Qed.
+
+(* ---------------- nearest-neighbour sampling stays inside the source *)
+
+Lemma nn_src_range n s i : 0 < n -> 0 < s -> 0 <= i < n -> 0 <= nn_src n s i < s.
+Proof.
+  intros Hn Hs Hi. unfold nn_src. split.
+  - apply Z.div_pos; nia.
+  - apply Z.div_lt_upper_bound; nia.
+Qed.
+
+Lemma img_at_nn_scale src nw nh x y :
+  0 <= x < nw -> 0 <= y < nh ->
+  img_at (nn_scale src nw nh) x y = to8 (img_at src (nn_src nw (iw src) x) (nn_src nh (ih src) y)).
+Proof.
+  intros Hx Hy. unfold img_at at 1, nn_scale; cbn [iw ih irows].
+  replace ((0 <=? x) && (x <? nw) && (0 <=? y) && (y <? nh)) with true by lia.
+  rewrite zget_map_zseq by lia. rewrite zget_map_zseq by lia. reflexivity.
+Qed.
+
+(* ---------------- Draw: the SetCell calls cover exactly the cell rectangle *)
+
+Lemma draw_from_In width i cells x y c :
+  In (x, y, c) (draw_from width i cells) ->
+  exists k, 0 <= k < zlen cells /\ y = (i + k) / width /\ x = (i + k) - y * width /\ zget cells k = Some c.
+Proof.
+  revert i. induction cells as [|c0 t IH]; intros i H; [destruct H|].
+  cbn [draw_from] in H. destruct H as [E | H].
+  - injection E as <- <- <-. exists 0. rewrite zlen_cons. pose proof (zlen_nonneg t).
+    rewrite Z.add_0_r. repeat split; try lia.
+  - destruct (IH (i + 1) H) as [k [K1 [K2 [K3 K4]]]]. exists (k + 1). rewrite zlen_cons.
+    replace (i + (k + 1)) with (i + 1 + k) by ring. repeat split; try lia.
+    unfold zget in *. destruct (k <? 0) eqn:E; [lia|]. destruct (k + 1 <? 0) eqn:E'; [lia|].
+    replace (Z.to_nat (k + 1)) with (S (Z.to_nat k)) by lia. exact K4.
+Qed.
+
+Theorem block_draw_inside width height cells x y c :
+  0 < width -> zlen cells = width * height ->
+  In (x, y, c) (block_draw width cells) ->
+  0 <= x < width /\ 0 <= y < height /\ zget cells (y * width + x) = Some c.
+Proof.
+  intros Hw Hl H. unfold block_draw in H.
+  destruct (draw_from_In width 0 cells x y c H) as [k [K1 [K2 [K3 K4]]]].
+  rewrite Z.add_0_l in *.
+  pose proof (Z.div_mod k width ltac:(lia)) as D. pose proof (Z.mod_pos_bound k width Hw) as M.
+  assert (Y : 0 <= y) by (subst y; apply Z.div_pos; lia).
+  assert (Y2 : y < height) by (subst y; apply Z.div_lt_upper_bound; lia).
+  assert (X : x = k mod width) by (subst x y; lia).
+  repeat split; try lia.
+  replace (y * width + x) with k by (subst x y; lia). exact K4.
+Qed.
+
+Theorem sixel_draw_inside sw sh winw winh x y :
+  In (x, y) (sixel_draw sw sh winw winh) -> 0 <= x < sw /\ 0 <= y < sh /\ sw <= winw /\ sh <= winh.
+Proof.
+  unfold sixel_draw. destruct ((winw <? sw) || (winh <? sh)) eqn:E; [intros []|].
+  intros H. apply in_flat_map in H. destruct H as [y' [Iy H]]. apply in_map_iff in H.
+  destruct H as [x' [Ex Ix]]. injection Ex as <- <-. apply In_zseq in Iy, Ix. lia.
+Qed.
